@@ -6,9 +6,9 @@ CONSTANTS
   CallSet <- MCCallSet
   Twin <- MCTwin
   N = 2
-  MaxCalls = 1
-  SrcEnc = "aes"
-  DstEnc = "aes"
+  MaxCalls = 2
+  SrcEnc = "none"
+  DstEnc = "none"
   EmptyArrayNil = FALSE
   NilEntryPanics = FALSE
   KeyByAsked = FALSE
@@ -18,17 +18,17 @@ CONSTANTS
   StepBound = 400
   ScalarAtoms = {"i:7"}
   MaxSlots = 1
-  WithDict = TRUE
+  WithDict = FALSE
   WithNest = FALSE
   Nest2 = FALSE
   WithStream = TRUE
-  StreamLayouts = {"none","direct","indirect","array","chain"}
+  StreamLayouts = {"none","direct"}
   WithDangling = FALSE
   WithNullObj = FALSE
   WithScalarObj = TRUE
-  CallOps = {"ref","obj","arr1"}
+  CallOps = {"ref","obj"}
   WithTwin = FALSE
-  CFIndirect = TRUE
+  CFIndirect = FALSE
   PlainIdentity = FALSE
   KeyByNumber = FALSE
   CryptProbeDirectOnly = FALSE
@@ -36,7 +36,7 @@ CONSTANTS
   InlinedAsIs = FALSE
   MaxChain = 10
   BoundBeforeRead = FALSE
-  TargetOpen = FALSE
+  TargetOpen = TRUE
   SharedBuffer = FALSE
-  Bodies = {"b1"}
+  Bodies = {"b1","b2"}
 INVARIANTS Once Repeat Terminates NoPanic ErrorsOnlyUnsupported Shape Sharing IsoInv
